@@ -15,6 +15,7 @@ import (
 
 	"github.com/syndtr/goleveldb/leveldb"
 	"github.com/syndtr/goleveldb/leveldb/opt"
+	"github.com/syndtr/goleveldb/leveldb/storage"
 	"github.com/syndtr/goleveldb/leveldb/util"
 	"verifharness/lib/dbh"
 	"verifharness/lib/vlib"
@@ -666,7 +667,13 @@ func main() {
 	}
 	for wi := 0; wi < nwork; wi++ {
 		r := root.Fork()
-		w := wl.GenWorkload(r, r.Range(nsteps/2, nsteps))
+		var w *wl.Workload
+		if wi%3 == 2 {
+			w = wl.GenBigJournalWorkload(r, r.Range(nsteps/3, nsteps/2))
+			res.Count("workloads_big_journal", 1)
+		} else {
+			w = wl.GenWorkload(r, r.Range(nsteps/2, nsteps))
+		}
 		w.Seed = a.Seed*1000 + uint64(wi)
 		out := runWorkload(w)
 		if out.err != "" {
@@ -683,6 +690,21 @@ func main() {
 		}
 		// crash points: everything near namespace/sync operations, plus a uniform sample
 		pts := map[int]bool{n: true}
+		// journal/manifest writes that reach or cross a 32 KiB block boundary: crash right after them
+		offs := map[storage.FileDesc]int{}
+		for i, o := range ops {
+			switch o.Kind {
+			case vstor.OpCreate:
+				offs[o.Fd] = 0
+			case vstor.OpWrite:
+				before := offs[o.Fd]
+				offs[o.Fd] = before + len(o.Data)
+				if i >= out.openIdx && (o.Fd.Type&(storage.TypeJournal|storage.TypeManifest)) != 0 && before/vstor.JournalBlock != offs[o.Fd]/vstor.JournalBlock {
+					pts[i+1] = true
+					res.Count("crash_points_after_block_crossing_write", 1)
+				}
+			}
+		}
 		for i, o := range ops {
 			if i < out.openIdx {
 				continue
